@@ -1,7 +1,7 @@
 (* C09 — pinned property theorems about the keep-alive part of the shared TransportService model
    (coq/Ts), in logical time. This file contains statements, `exact`, and Print Assumptions only. *)
 From Coq Require Import List NArith Bool.
-From V.Ts Require Import Model Proofs Rearm Timing Extra Exact.
+From V.Ts Require Import Model Proofs Rearm Timing Extra Exact Multi MultiProofs.
 Import ListNotations.
 Open Scope N_scope.
 
@@ -233,6 +233,57 @@ Example C09_nonvacuous_promotion :
   feasible 2 env0 (init true 300 0) tr = true /\
   concat (run (init true 300 0) tr) = [OEst 0; ORet 0 0; OCmd 2 0; ODown 0 2] /\
   concat (run (init true 300 0) (firstn 5 tr)) = [OEst 0; ORet 0 0; OCmd 2 0].
+Proof. vm_compute. repeat split; reflexivity. Qed.
+
+(* ---- several protocols with their own keep-alive timeouts on one connection (Multi.v) ----
+   THE CONNECTION CLOSES ONLY WHEN ALL HAVE LET GO, AND THEN IT DOES. At the end of every feasible
+   history of the composition (any number of services, any keep-alive flags, any timeouts T_j),
+   for every open connection (p, c): the command channel of c has no strong sender left — the
+   connection task's next() returns None and the connection closes — if and only if EVERY
+   service has let go of it: its own last keep-alive activity on (p, c) (independent
+   specification) is at least its own T_j old, none of its keep-alive substreams lives on c and
+   none of its opens is queued or in flight on c. Each service keeps its configured (flag, T_j),
+   and all clocks agree. *)
+Theorem C09_multi_closed_iff_all_let_go :
+  forall tr cap cfg n0 p c,
+  mfeasible 2 env0 (minit cap cfg n0) tr = true -> In (p, c) (e_live (mefinal env0 tr)) ->
+  let m := mfinal (minit cap cfg n0) tr in
+  (mstrong (m_svcs m) c = 0 <-> Forall (fun s => let_go s (p, c)) (m_svcs m)) /\
+  map (fun s => (s_ka s, s_T s)) (m_svcs m) = cfg /\
+  Forall (fun s => s_now s = elapsed tr) (m_svcs m).
+Proof. exact multi_closed_iff. Qed.
+Print Assumptions C09_multi_closed_iff_all_let_go.
+
+(* each service inside the composition: for every open connection its handle is Active exactly
+   while ITS last keep-alive activity is less than ITS timeout old *)
+Theorem C09_multi_active_iff_recent :
+  forall tr cap cfg n0 s k,
+  mfeasible 2 env0 (minit cap cfg n0) tr = true ->
+  In s (m_svcs (mfinal (minit cap cfg n0) tr)) -> In k (e_live (mefinal env0 tr)) ->
+  exists t, kfind k (s_act s) = Some t /\ t <= s_now s /\
+            (handle_active (s_ctxs s) k = true <-> s_now s < t + s_T s).
+Proof. exact multi_active_iff. Qed.
+Print Assumptions C09_multi_active_iff_recent.
+
+(* next() of the connection task: None exactly when the queue is empty and no strong sender is left *)
+Theorem C09_multi_next_none_iff :
+  forall m dt c,
+  In c (m_sets m) ->
+  (snd (snd (mstep m dt (MNext c))) = NEnd <->
+   qfind c (push_all 0 (m_q m) (fst (snd (mstep m dt (MNext c))))) = [] /\
+   mstrong (m_svcs (fst (mstep m dt (MNext c)))) c = 0).
+Proof. exact next_none_iff. Qed.
+Print Assumptions C09_multi_next_none_iff.
+
+(* non-vacuity: a keep-alive protocol with T = 300 and one with T = 500 on connection 1; polled at
+   400 the first lets go (downgrade), the channel keeps the second one's strong sender (next() is
+   Pending); polled at 600 the second lets go too: no strong sender, next() returns None *)
+Example C09_multi_nonvacuous :
+  let tr := [(0, MAll (EEst 0 1)); (400, MNext 1); (200, MNext 1)] in
+  let m0 := minit 4 [(true, 300); (true, 500)] 0 in
+  mfeasible 2 env0 m0 tr = true /\
+  mrun m0 tr = [([[OEst 0]; [OEst 0]], NNo); ([[ODown 0 1]; []], NPending); ([[]; [ODown 0 1]], NEnd)] /\
+  mstrong (m_svcs (mfinal m0 (firstn 2 tr))) 1 = 1 /\ mstrong (m_svcs (mfinal m0 tr)) 1 = 0.
 Proof. vm_compute. repeat split; reflexivity. Qed.
 
 (* non-vacuity: T = 300; established at 0, an open at 200 (keep-alive protocol) moves the close
